@@ -67,6 +67,8 @@ class Ctx:
             cinfo = self.an.f.consts.get(v[1])
             if cinfo is not None and "slice_len" in cinfo:
                 return ("n", None, cinfo["slice_len"])
+        if v[0] == "ref" and isinstance(v[1], str) and v[1].startswith("arr:") and not v[2]:
+            return ("n", None, int(v[1][4:]))
         if v[0] == "ref" and isinstance(v[1], str) and v[1].startswith("promoted:") and not v[2]:
             pv = self.an.promoted_value(self.st, v[1][len("promoted:"):])
             if pv is not None:
@@ -87,6 +89,10 @@ class Ctx:
                 return ("n", None, self.an.T[pt]["len"])
         if tix is not None and self.an.T[tix]["k"] == "array":
             return ("n", None, self.an.T[tix]["len"])
+        # a reference of unknown origin to an array: the length is in the type
+        pt = self.pointee_tix(i)
+        if pt is not None and self.an.T[pt]["k"] == "array" and self.an.T[pt].get("len") is not None:
+            return ("n", None, self.an.T[pt]["len"])
         return ("iv", 0, LEN_MAX)
 
     def num(self, i):
